@@ -921,6 +921,11 @@ class ExcelCompiler:
             else:
                 # CSE Array Formula
                 data = self.eval(cell_range, cell_range.address)
+                if list_like(data):
+                    # an empty cell an array formula passes on is a zero, as it
+                    # is for the cells of the array when calculated on their own
+                    data = tuple(tuple(0 if x is None else x for x in row)
+                                 if list_like(row) else row for row in data)
                 if self.cycles and cell_range.changed_by_more_than(
                         data, iterative_eval_tracker.tolerance):
                     # like a cell that moved: another iteration is needed
